@@ -412,6 +412,13 @@ def process_sessions(args: Tuple[List[Dict[str, Any]], int]) -> Dict[str, Any]:
                     return None
                 st["loads"] += 1
                 ev.append({"ev": "load", "a": a, "entry": "archive", "h": h, "c": cid(pdx.digest(db2)), "b": bid(behaviour(db2))})
+                if not job.get("site"):
+                    # resolving everything a second time must not change what was loaded
+                    try:
+                        db2.refresh()
+                        ev.append({"ev": "refresh", "h": h, "c": cid(pdx.digest(db2)), "b": bid(behaviour(db2))})
+                    except Exception as e:  # noqa: BLE001
+                        info["errors"].append(("refresh_raises", f"{type(e).__name__}: {str(e)[:120]}"))
                 info["diffs"][len(ev)] = pdx.diff_db(original, db2, limit=6)
                 return db2
             db = _load_base(job["base"])
